@@ -141,6 +141,33 @@ def run(tier, seed):
                     dom = [True, False]
                 else:
                     continue
+                # the enumeration member that turns a box on is the one the box is labelled with (when the labels name members at all)
+                if isinstance(fld, H['fields'].EnumField):
+                    def letters(t):
+                        return re.sub(r'[^a-z]', '', t.lower())
+
+                    def matches(member, text):
+                        toks = [t.lower() for t in re.findall(r'[A-Z][a-z]+|[a-z]+', member.name)]
+                        return len(member.name) >= 4 and toks and all(t in letters(text) for t in toks)
+                    texts = {pf.pdf_field_name: (tmpl['fields'].get(pf.pdf_field_name) or {}).get('speak', '') for pf in members}
+                    for m_ in fld.enum():
+                        named = [w for w, t in texts.items() if matches(m_, t)]
+                        if len(named) != 1:
+                            continue
+                        on_ = []
+                        for pf in members:
+                            try:
+                                if pf.value(m_, fld) != 'Off':
+                                    on_.append(pf.pdf_field_name)
+                            except Exception:  # noqa
+                                pass
+                        ck.count((y, name, g, 'label', m_.name), nontrivial=True)
+                        if on_ and named[0] not in on_:
+                            ck.violation('C18:%d:%s:member-label:%s' % (y, name, m_.name),
+                                         'ty%d %s: %s = %s ticks %s (labelled "%s"), while the box labelled with that status is %s' % (
+                                             y, name, fname, m_.name, on_[0].split('.')[-1], texts[on_[0]][:60], named[0].split('.')[-1]),
+                                         {'kind': 'failing-input', 'year': y, 'form': name, 'line': fname, 'value': m_.name, 'box_ticked': on_,
+                                          'box_labelled': named[0], 'label_of_ticked_box': texts[on_[0]]}, found=True)
                 for v in dom:
                     on = []
                     for pf in members:
@@ -177,4 +204,7 @@ def run(tier, seed):
     ck.cov['mappings'] = total
     ck.cov['exhaustive'] = True
     ck.sample({'year': 2023, 'forms_with_templates': [t[0] for t in files[-1][1]] if files else []})
+    # the filler itself: every box of every filled form carries the text of ITS mapped line (recorder in place of pdftk)
+    from . import c19
+    c19.real_fills(ck, H, H['pdf_filler'], random.Random(seed + 18), tier, 'C18')
     return sf.finish_family(ck, 'C18')
